@@ -555,6 +555,27 @@ class Body:
             else:
                 res.add((k, bb, idx, proj))
 
+    def eval_int(self, op, depth=0):
+        """constant-fold an integer operand (constants, single-definition temporaries, Mul/Add/Sub, casts)"""
+        if op[0] == "k":
+            return op[2] if isinstance(op[2], int) and not isinstance(op[2], bool) else None
+        l = op_local(op)
+        ds = self.defs.get(l, []) if l is not None else []
+        if len(ds) != 1 or ds[0][1] == "call" or depth > 12:
+            return None
+        rv = ds[0][2]
+        if rv[0] == "use":
+            return self.eval_int(rv[1], depth + 1)
+        if rv[0] == "cast":
+            return self.eval_int(rv[2], depth + 1)
+        if rv[0] == "bin":
+            a, c = self.eval_int(rv[2], depth + 1), self.eval_int(rv[3], depth + 1)
+            if a is None or c is None:
+                return None
+            opn = rv[1].replace("WithOverflow", "").replace("Unchecked", "")
+            return {"Mul": a * c, "Add": a + c, "Sub": a - c}.get(opn)
+        return None
+
     # -- printing
     def dump(self, only_live=True, blocks=None):
         out = []
